@@ -296,6 +296,30 @@ def k_cell(run, case):
             if sorted(changed) != sorted(E):
                 run.violation("not-replaced-warnings-off:" + S.name, "%s: files %s were not replaced" %
                               (label, sorted(set(E) - set(changed))), case)
+        # --- history: the same process saves to the same paths again; an earlier 'y' (or an earlier
+        # creation) must not count as a confirmation for the next save
+        if confirm_on and E and rB.exc is None:
+            again = "n" if answer == "y" else "y"
+            before2 = fsmon.digest_dir(outB)
+            existing2 = sorted(f for f in OUT if f in before2)
+            r2 = S.run(outB, ctx, [again] * 40, no_warnings)
+            after2 = fsmon.digest_dir(outB)
+            changed2 = [f for f in existing2 if after2.get(f) != before2[f]]
+            run.counters["repeated save to the same paths is confirmed again"] += 1
+            if again != "y":
+                if changed2:
+                    run.violation("overwritten-on-repeat:" + S.name, "%s: a second save in the same process "
+                                  "(first answered %r, now %r) modified %s" % (S.name, answer, again, changed2), case)
+                if existing2 and len(r2.prompts) < 1:
+                    run.violation("no-prompt-on-repeat:" + S.name, "%s: the second save to existing targets in "
+                                  "the same process did not ask" % S.name, case)
+            else:
+                # (files written by the first run already hold the new output: only those still
+                # holding the old dummy content can be seen to change)
+                stale = [f for f in existing2 if f in E and before2[f] == before.get(f)]
+                if r2.exc is None and any(f not in changed2 for f in stale):
+                    run.violation("not-replaced-on-repeat:" + S.name, "%s: second save confirmed with 'y' did not "
+                                  "replace %s" % (S.name, sorted(set(stale) - set(changed2))), case)
     finally:
         shutil.rmtree(work, ignore_errors=True)
 
@@ -400,5 +424,6 @@ def main(run):
              "no destructive file-system event on a declined target",
              "destructive events on a target come after its confirmation",
              "confirmation is asked for an existing target", "no unexpected files are written",
+             "repeated save to the same paths is confirmed again",
              "real executable: 'y' replaces the targets",
              "real executable: other answers leave the targets byte-identical")
